@@ -34,4 +34,5 @@ VARIANTS = [
     V("window-longer-than-clip-rejected(G.12)", O, "    num_segments = math.ceil(clip.duration / hop)", "    if duration > clip.duration:\n        raise ValueError(\"The window is longer than the clip.\")\n\n    num_segments = math.ceil(clip.duration / hop)", "G.12"),
     V("hop-larger-than-duration-rejected(G.12)", O, "    num_segments = math.ceil(clip.duration / hop)", "    if hop > duration:\n        raise ValueError(\"The hop leaves gaps.\")\n\n    num_segments = math.ceil(clip.duration / hop)", "G.12"),
     V("N-guards-in-one-test", O, "    if duration <= 0:\n        raise ValueError(\"Duration must be positive.\")\n\n    if hop <= 0:\n        raise ValueError(\"Hop size must be positive.\")", "    if duration <= 0 or hop <= 0:\n        raise ValueError(\"Duration and hop size must be positive.\")", None),
+    V("nothing-for-long-hops(G.12)", O, "    num_segments = math.ceil(clip.duration / hop)", "    if hop > clip.duration:\n        return\n\n    num_segments = math.ceil(clip.duration / hop)", "G.12"),
 ]
